@@ -224,6 +224,46 @@ func init() {
 		"(*sync.RWMutex).Unlock":  func(fr *frame, a []value) value { fr.i.sched.unlock(a[0].(*value)); return nil },
 		"(*sync.RWMutex).RLock":   func(fr *frame, a []value) value { fr.i.sched.rlock(a[0].(*value), fr.where()); return nil },
 		"(*sync.RWMutex).RUnlock": func(fr *frame, a []value) value { fr.i.sched.runlock(a[0].(*value)); return nil },
+		// sync.Map: a list of (key, value) pairs per map, keys compared as interface values
+		"(*sync.Map).Load": func(fr *frame, a []value) value {
+			for _, e := range fr.i.syncMap(a[0]) {
+				if e[0].(iface).eq(nil, a[1]) {
+					return tuple{e[1], true}
+				}
+			}
+			return tuple{iface{}, false}
+		},
+		"(*sync.Map).Store": func(fr *frame, a []value) value {
+			m := fr.i.syncMap(a[0])
+			for k, e := range m {
+				if e[0].(iface).eq(nil, a[1]) {
+					m[k][1] = a[2]
+					return nil
+				}
+			}
+			fr.i.setSyncMap(a[0], append(m, [2]value{a[1], a[2]}))
+			return nil
+		},
+		"(*sync.Map).LoadOrStore": func(fr *frame, a []value) value {
+			m := fr.i.syncMap(a[0])
+			for _, e := range m {
+				if e[0].(iface).eq(nil, a[1]) {
+					return tuple{e[1], true}
+				}
+			}
+			fr.i.setSyncMap(a[0], append(m, [2]value{a[1], a[2]}))
+			return tuple{a[2], false}
+		},
+		"(*sync.Map).Delete": func(fr *frame, a []value) value {
+			m := fr.i.syncMap(a[0])
+			for k, e := range m {
+				if e[0].(iface).eq(nil, a[1]) {
+					fr.i.setSyncMap(a[0], append(append([][2]value{}, m[:k]...), m[k+1:]...))
+					return nil
+				}
+			}
+			return nil
+		},
 		"(*sync.Once).Do":         func(fr *frame, a []value) value { fr.i.sched.onceDo(a[0].(*value), a[1], fr.where()); return nil },
 		"(*sync.WaitGroup).Add": func(fr *frame, a []value) value {
 			fr.i.sched.wgAdd(a[0].(*value), fr.i.concreteInt(a[1], "WaitGroup delta"))
@@ -743,6 +783,17 @@ func (i *interpreter) errorsIs(fr *frame, err, target iface, cmp bool, depth int
 				return true
 			}
 		}
+		if err.t == fmtErrorType {
+			// fmt.Errorf("...%w", e): no Is method, Unwrap gives e
+			err = err.v.(*nativeObj).data.(*fmtErr).wrapped
+			if err.t == nil {
+				return false
+			}
+			continue
+		}
+		if _, native := err.t.(*nativeType); native {
+			return false
+		}
 		if m := i.methodOf(err.t, "Is"); m != nil && m.Signature.Params().Len() == 1 && m.Signature.Results().Len() == 1 {
 			r := call(i, fr, token.NoPos, m, []value{err.v, target})
 			switch r := r.(type) {
@@ -1075,4 +1126,20 @@ func (i *interpreter) indexRuneASCII(fr *frame, s value, r value) value {
 		res = p.Ite(p.Eq(rs.t, p.BV(bits, uint64(cs[k]))), p.BV(64, uint64(k)), res)
 	}
 	return fromTerm(res, types.Int)
+}
+
+
+// sync.Map state lives beside the interpreted memory, keyed by the map's address.
+func (i *interpreter) syncMap(p value) [][2]value {
+	t, _ := i.hstate["sync.Map"].(map[*value][][2]value)
+	return t[p.(*value)]
+}
+
+func (i *interpreter) setSyncMap(p value, m [][2]value) {
+	t, _ := i.hstate["sync.Map"].(map[*value][][2]value)
+	if t == nil {
+		t = map[*value][][2]value{}
+		i.hstate["sync.Map"] = t
+	}
+	t[p.(*value)] = m
 }
